@@ -5,7 +5,7 @@ import io
 import random
 
 from vf import corpus, geom
-from vf.runner import Acc, CaseTimeout, HarnessError, fingerprint, hyp_collect, subseed, time_limit
+from vf.runner import from_jsonable, to_jsonable, Acc, CaseTimeout, HarnessError, fingerprint, hyp_collect, subseed, time_limit
 
 ID = "C05"
 LEVEL = "exploration"
@@ -89,6 +89,11 @@ def jobs(tier, seed):
     n = 4000 if tier == "thorough" else 400
     for i in range(16):
         J.append(dict(kind="generated", name="generated-%d" % i, n=n // 16, seed=subseed(seed, "gen", i), tier=tier))
+    # generated CFF fonts: Type 2 programs over the whole operator grammar (every flex form, hint operators,
+    # alternating curve forms, subroutines), which the CFF fonts of the test data hardly use
+    m = 3200 if tier == "thorough" else 320
+    for i in range(16):
+        J.append(dict(kind="gencff", name="gencff-%d" % i, n=m // 16, seed=subseed(seed, "gencff", i), tier=tier))
     return J
 
 
@@ -126,7 +131,7 @@ def _has_cubic_glyf(font):
     return False
 
 
-def check_glyph(font, glyphSet, hbf, ft_get, name, gid, loc, acc, case, kinds):
+def check_glyph(font, glyphSet, hbf, ft_get, name, gid, loc, acc, case, kinds, degen=None):
     """Compare one glyph. Returns (ncontours or None)."""
     from fontTools.pens.recordingPen import DecomposingRecordingPen
 
@@ -148,13 +153,14 @@ def check_glyph(font, glyphSet, hbf, ft_get, name, gid, loc, acc, case, kinds):
     except Exception as e:
         acc.fail_exc("draw-raises", e, case)
         return None
+    degen = DEGEN if degen is None else degen
     try:
-        A = geom.canon(pen.value, tol=DEGEN)
+        A = geom.canon(pen.value, tol=degen)
     except geom.GeomError as e:
         acc.fail("pen-protocol", "GeomError", str(e), case)
         return None
-    B = geom.canon(hbf.draw(gid), tol=DEGEN)
-    tol = VARC_TOL if "VARC" in font else PT_TOL
+    B = geom.canon(hbf.draw(gid), tol=degen)
+    tol = (VARC_TOL if "VARC" in font else PT_TOL) + (degen if degen > DEGEN else 0.0)
     # representation: both sides drop fully degenerate segments; fontTools' glyf draws implied
     # closing lines which geom makes explicit on both sides
     A = [c for c in A if c["segs"]]
@@ -221,7 +227,7 @@ def run_font(acc, fid, seed, tier, only=None):
     compare_font(acc, font, data, index, fid, seed, tier, only=only)
 
 
-def compare_font(acc, font, data, index, fid, seed, tier, only=None, gen=None, nrandom=None):
+def compare_font(acc, font, data, index, fid, seed, tier, only=None, gen=None, nrandom=None, degen=None):
     from vf.hbref import HBFont
 
     if not {"head", "hhea", "hmtx", "maxp"}.issubset(font.keys()) or not ({"glyf", "CFF ", "CFF2"} & set(font.keys())):
@@ -291,7 +297,7 @@ def compare_font(acc, font, data, index, fid, seed, tier, only=None, gen=None, n
                 case["gen"] = gen
             try:
                 with time_limit(60):
-                    nc = check_glyph(font, glyphSet, hbf, ftg, name, gid, loc, acc, case, kinds)
+                    nc = check_glyph(font, glyphSet, hbf, ftg, name, gid, loc, acc, case, kinds, degen=degen)
             except CaseTimeout:
                 acc.inconclusive += 1
                 continue
@@ -332,10 +338,75 @@ def run_generated(acc, spec, seed, tier, only=None):
         acc.label("gen:composite")
 
 
+def run_gencff(acc, c, use_subrs, seed, tier, only=None):
+    """Generated CFF font: the glyph-set API against HarfBuzz's CFF interpreter. Outlines are compared the way property
+    C12 compares them (exact point structure first, then equality of the filled outline): generated programs are full of
+    zero-length and sub-unit segments on which the corpus comparison's notion of 'degenerate' is too coarse."""
+    from fontTools.pens.recordingPen import DecomposingRecordingPen
+    from fontTools.ttLib import TTFont
+    from props import c12
+    from vf import gen_font, gen_t2
+    from vf.hbref import HBFont
+
+    names = gen_t2.glyph_names(len(c["flat"]))
+    spec = {"kind": "cff", "cff": c, "names": names, "use_subrs": use_subrs, "extras": {}}
+    try:
+        data = gen_font.build(spec)
+    except Exception as e:
+        acc.exclude("generated-font-does-not-build:%s" % type(e).__name__)
+        return
+    font = TTFont(io.BytesIO(data))
+    hbf = HBFont(data)
+    fid = "gencff:" + fingerprint((c, use_subrs))
+    gs = font.getGlyphSet()
+    for gid, name in enumerate(names):
+        if only is not None and only.get("glyph") != name:
+            continue
+        case = dict(fid=fid, loc=None, glyph=name, gencff=to_jsonable(c), use_subrs=use_subrs)
+        pen = DecomposingRecordingPen(gs)
+        try:
+            g = gs[name]
+            g.draw(pen)
+            width = g.width
+        except CaseTimeout:
+            raise
+        except Exception as e:
+            acc.fail_exc("draw-raises", e, case)
+            continue
+        hb_ops = hbf.draw(gid)
+        tol = c12._hb_tol(c["flat"][gid], hb_ops)
+        ok, d = c12.exact_same(pen.value, hb_ops, tol)
+        if not ok:
+            ok, d = c12.fill_same(pen.value, hb_ops, tol, degen_tol=tol)
+        if not ok:
+            acc.fail("outline", "generated-cff", "%s glyph %r gid %d: %s; program %s" % (fid, name, gid, d, c["flat"][gid][:60]), case)
+        hadv = hbf.h_advance(gid)
+        if width is None or abs(width - hadv) > ADV_TOL:
+            acc.fail("advance", "h-advance", "%s glyph %r: fontTools %r, HarfBuzz %r" % (fid, name, width, hadv), case)
+        ncont = sum(1 for op, _ in pen.value if op == "moveTo")
+        acc.case((fid, name), nontrivial=ncont > 0, labels=["kind:CFF", "loc:default", "gencff"])
+    ops = {t for p in c["flat"] for t in p if isinstance(t, str)}
+    for op in ("flex", "flex1", "hflex", "hflex1", "hintmask", "rcurveline", "rlinecurve", "vvcurveto", "hhcurveto"):
+        if op in ops:
+            acc.label("gencff:op:" + op)
+    if use_subrs:
+        acc.label("gencff:subroutinised")
+
+
 def run_job(job):
     acc = Acc()
     if job["kind"] == "font":
         run_font(acc, job["fid"], job["seed"], job["tier"])
+    elif job["kind"] == "gencff":
+        from hypothesis import strategies as st
+
+        from vf import gen_t2
+
+        def body(case, acc):
+            c, sub = case
+            run_gencff(acc, c, sub and c["lsubrs"]["n"] + c["gsubrs"]["n"] < 1500, job["seed"], job["tier"])
+
+        hyp_collect(acc, st.tuples(gen_t2.fonts(max_glyphs=5), st.booleans()), body, job["n"], job["seed"])
     else:
         from vf import gen_varfont
 
@@ -347,7 +418,7 @@ def run_job(job):
 
 
 def finish(total, tier, seed):
-    for need in ("gen:has-inferred-deltas", "gen:composite", "gen:avar", "kind:CFF", "kind:CFF2", "loc:variation"):
+    for need in ("gen:has-inferred-deltas", "gen:composite", "gen:avar", "kind:CFF", "kind:CFF2", "loc:variation", "gencff:op:flex", "gencff:op:flex1", "gencff:op:hflex", "gencff:op:hflex1", "gencff:op:hintmask", "gencff:subroutinised"):
         if not total.labels.get(need):
             raise HarnessError("generator/corpus class %r never exercised" % need)
 
@@ -356,6 +427,8 @@ def replay(case):
     acc = Acc()
     if case.get("gen"):
         run_generated(acc, case["gen"], 1, "thorough", only=case)
+    elif case.get("gencff"):
+        run_gencff(acc, from_jsonable(case["gencff"]), case.get("use_subrs", False), 1, "thorough", only=case)
     else:
         run_font(acc, case["fid"], 1, "thorough", only=case)
     return acc.failures
